@@ -82,6 +82,7 @@ type c06 struct {
 	cases int
 	// fixtures
 	tdesc   *thrift.TypeDescriptor
+	tdescA  *thrift.TypeDescriptor // the same type with value-mapping and response HTTP-mapping annotations on some fields
 	tidl    string
 	tkey    string
 	penv    *pbEnv
@@ -138,6 +139,20 @@ func (c *c06) thriftEntries(t byte, in []byte) []RobRes {
 				_, err := cv.Do(context.Background(), desc, in)
 				return err
 			}))
+			if da := c.tdescA; da != nil {
+				// every option on, annotated fields: value mapping, HTTP response mapping (values written as text or as JSON of their own)
+				for _, kitex := range []bool{false, true} {
+					kitex := kitex
+					res = append(res, measure(fmt.Sprintf("t2j.Do/opts/kitex=%v", kitex)+n, func() error {
+						cv := t2j.NewBinaryConv(conv.Options{UseNativeSkip: native, EnableValueMapping: true, EnableHttpMapping: true, Int642String: true,
+							String2Int64: true, NoBase64Binary: kitex, ByteAsUint8: true, WriteOptionalField: true, WriteDefaultField: true, WriteRequireField: true,
+							WriteHttpValueFallback: !kitex, OmitHttpMappingErrors: kitex, ConvertException: true, UseKitexHttpEncoding: kitex})
+						ctx := context.WithValue(context.Background(), conv.CtxKeyHTTPResponse, dhttp.NewHTTPResponse())
+						_, err := cv.Do(ctx, da, in)
+						return err
+					}))
+				}
+			}
 		}
 	}
 	res = append(res, measure("t.UnwrapBinaryMessage", func() error { _, _, _, _, _, err := thrift.UnwrapBinaryMessage(in); return err }))
@@ -270,14 +285,20 @@ func (c *c06) run(rc RobCase) {
 		key := fmt.Sprint(rc.T) + string(rc.Base)
 		if key != c.tkey {
 			c.tkey = key
-			c.tdesc, c.tidl = nil, ""
+			c.tdesc, c.tdescA, c.tidl = nil, nil, ""
 			if td := inferTyped(byte(rc.T), rc.Base); td.ok {
 				c.tdesc, c.tidl = td.desc, td.idl
+				for _, f := range td.shape.allStructs() {
+					f.name = ""
+				}
+				if ta := typedFromShapeAnno(td.shape, true); ta.ok {
+					c.tdescA = ta.desc
+				}
 			}
 		}
 		res = c.thriftEntries(byte(rc.T), in)
 	case "thrift-http":
-		c.tkey, c.tdesc, c.tidl = "", httpDeepDesc(), httpDeepIDL
+		c.tkey, c.tdesc, c.tdescA, c.tidl = "", httpDeepDesc(), nil, httpDeepIDL
 		res = append(c.thriftEntries(byte(rc.T), in), c.thriftHttpEntries(in)...)
 		c.tdesc, c.tidl = nil, ""
 	case "proto":
@@ -423,7 +444,7 @@ func c06Main(args map[string]string) {
 			c.run(RobCase{Kind: "json-p", B: B(bytes.Repeat([]byte(`{"a":`), depth)), MK: "deep"})
 			// thrift: list<list<...>> headers; proto: nested length-delimited field 17
 			tl := bytes.Repeat([]byte{15, 0, 0, 0, 1}, depth)
-			c.tkey, c.tdesc = "", nil
+			c.tkey, c.tdesc, c.tdescA = "", nil, nil
 			c.run(RobCase{Kind: "thrift", T: 15, Base: B{15, 0, 0, 0, 0}, B: B(tl), MK: "deep"})
 			pl := bytes.Repeat([]byte{0x8a, 0x01, 0x7f}, depth)
 			c.run(RobCase{Kind: "proto", B: B(pl), MK: "deep"})
